@@ -19,14 +19,36 @@ PROPERTY = 'C04'
 LEAN_TARGETS = ['CpProofs.C04', 'drv_c04']
 DRIVER = 'drv_c04'
 THEOREMS = [
-    'CpProofs.C04.stub',
+    'CpProofs.C04.C04_framing_partial',
+    'CpProofs.C04.C04_framing_full_false',
+    'CpProofs.C04.C04_content_independent_of_threshold',
+    'CpProofs.C04.C04_readline_is_cursor',
+    'CpProofs.C04.C04_finish_is_cursor',
+    'CpProofs.C04.C04_init_enough',
+    'CpProofs.C04.C04_no_overread',
+    'CpProofs.C04.readLines_lines',
+    'CpProofs.C04.readLines_content',
+    'CpProofs.C04.readHeaders_lines',
+    'CpProofs.C04.findFirst_pre',
+    'CpProofs.C04.partsLoop_parts',
 ]
 LEVEL = 'proof'
 TECHNIQUE = ('Lean 4 proof: loop invariant of Part.read_lines_to_boundary (deferred line terminator) by induction '
              'on the LF-split of the content, composed over headers / parts / first-marker search; on top of the '
              'C05 reader refinement; model tied to the real parser by a differential run through in-process WSGI')
-LEVEL_TEXT = ''
-LEVEL_NOTE = ''
+LEVEL_TEXT = ('Proved in Lean for every valid boundary, every preamble without a marker line, every list of >= 1 parts '
+              'with well-formed header lines, every memory threshold, with or without CRLF/epilogue after the close '
+              'delimiter: if no part content has a delimiter-like line (a line starting with -- that strip()s to the '
+              'boundary or end marker) the parser returns every part in order with the header list read_headers '
+              'builds and byte-identical content (spilled <=> longer than maxrambytes) and stops right behind the close '
+              'delimiter; the RFC-strength statement is proved false (F7 witness). The reader under the parser is the '
+              'cursor that C05 proves SizedReader refines for every fragmentation and buffer size (bridge theorem '
+              'C04_readline_is_cursor); stream offset <= Content-Length from C05. Partial: name/filename/content-type '
+              'extraction, list promotion of same-name parts and the zero-part body are modelled and compared with '
+              'the real code on generated bodies but not covered by theorems; chunked bodies are outside (F23).')
+LEVEL_NOTE = ('Trusted: Lean kernel, the hand models lean/CpModel/Multipart.lean + Reader.lean as validated by the '
+              'differential run (POST through in-process WSGI under fragmentation / buffer sizes / thresholds), '
+              'tempfile, the harness. httputil.HeaderMap / header_elements / parse_header are modelled without proof.')
 TRUSTED_BASE = [
     'tempfile / file objects: a spooled part is read back through its file object',
     'header value decoding (ISO-8859-1), field value decoding (us-ascii, utf-8) are done by the harness on the '
